@@ -7,7 +7,7 @@ open Pptx.Slots Pptx.Gen.C10 Pptx.C10
 
 theorem CT_ApplicationNonVisualDrawingProps_CT_ApplicationNonVisualDrawingProps_adequate : [row_CT_ApplicationNonVisualDrawingProps_CT_ApplicationNonVisualDrawingProps_ph].all Row.adequate = true := by decide +kernel
 
-theorem CT_Area3DChart_CT_Area3DChart_adequate : [row_CT_Area3DChart_CT_Area3DChart_grouping].all Row.adequate = true := by decide +kernel
+theorem CT_Area3DChart_CT_Area3DChart_adequate : [row_CT_Area3DChart_CT_Area3DChart_grouping, row_CT_Area3DChart_CT_Area3DChart_varyColors, row_CT_Area3DChart_CT_Area3DChart_dLbls].all Row.adequate = true := by decide +kernel
 
 theorem CT_AreaChart_CT_AreaChart_adequate : [row_CT_AreaChart_CT_AreaChart_grouping, row_CT_AreaChart_CT_AreaChart_varyColors, row_CT_AreaChart_CT_AreaChart_ser, row_CT_AreaChart_CT_AreaChart_dLbls].all Row.adequate = true := by decide +kernel
 
@@ -21,7 +21,7 @@ theorem CT_BarChart_CT_BarChart_adequate : [row_CT_BarChart_CT_BarChart_grouping
 
 theorem CT_BlipFillProperties_CT_BlipFillProperties_adequate : [row_CT_BlipFillProperties_CT_BlipFillProperties_blip, row_CT_BlipFillProperties_CT_BlipFillProperties_srcRect].all Row.adequate = true := by decide +kernel
 
-theorem CT_BubbleChart_CT_BubbleChart_adequate : [row_CT_BubbleChart_CT_BubbleChart_ser, row_CT_BubbleChart_CT_BubbleChart_dLbls, row_CT_BubbleChart_CT_BubbleChart_bubble3D, row_CT_BubbleChart_CT_BubbleChart_bubbleScale].all Row.adequate = true := by decide +kernel
+theorem CT_BubbleChart_CT_BubbleChart_adequate : [row_CT_BubbleChart_CT_BubbleChart_varyColors, row_CT_BubbleChart_CT_BubbleChart_ser, row_CT_BubbleChart_CT_BubbleChart_dLbls, row_CT_BubbleChart_CT_BubbleChart_bubble3D, row_CT_BubbleChart_CT_BubbleChart_bubbleScale].all Row.adequate = true := by decide +kernel
 
 theorem CT_CatAx_CT_CatAx_adequate : [row_CT_CatAx_CT_CatAx_delete_, row_CT_CatAx_CT_CatAx_majorGridlines, row_CT_CatAx_CT_CatAx_minorGridlines, row_CT_CatAx_CT_CatAx_title, row_CT_CatAx_CT_CatAx_numFmt, row_CT_CatAx_CT_CatAx_majorTickMark, row_CT_CatAx_CT_CatAx_minorTickMark, row_CT_CatAx_CT_CatAx_tickLblPos, row_CT_CatAx_CT_CatAx_spPr, row_CT_CatAx_CT_CatAx_txPr, row_CT_CatAx_CT_CatAx_crosses, row_CT_CatAx_CT_CatAx_crossesAt, row_CT_CatAx_CT_CatAx_lblOffset].all Row.adequate = true := by decide +kernel
 
@@ -111,7 +111,7 @@ theorem CT_ScRgbColor_CT_ScRgbColor_adequate : [row_CT_ScRgbColor_CT_ScRgbColor_
 
 theorem CT_Scaling_CT_Scaling_adequate : [row_CT_Scaling_CT_Scaling_orientation, row_CT_Scaling_CT_Scaling_max, row_CT_Scaling_CT_Scaling_min].all Row.adequate = true := by decide +kernel
 
-theorem CT_ScatterChart_CT_ScatterChart_adequate : [row_CT_ScatterChart_CT_ScatterChart_varyColors, row_CT_ScatterChart_CT_ScatterChart_ser].all Row.adequate = true := by decide +kernel
+theorem CT_ScatterChart_CT_ScatterChart_adequate : [row_CT_ScatterChart_CT_ScatterChart_varyColors, row_CT_ScatterChart_CT_ScatterChart_ser, row_CT_ScatterChart_CT_ScatterChart_dLbls].all Row.adequate = true := by decide +kernel
 
 theorem CT_SchemeColor_CT_SchemeColor_adequate : [row_CT_SchemeColor_CT_SchemeColor_lumMod, row_CT_SchemeColor_CT_SchemeColor_lumOff].all Row.adequate = true := by decide +kernel
 
